@@ -133,7 +133,30 @@ fn solve(case: &Value) -> Value {
         .set_environment(environment)
         .set_telemetry_mode(TelemetryMode::OnlyMetrics { track_population: 1 })
         .prebuild()
-        .and_then(|b| b.with_max_generations(max_generations).build());
+        .and_then(|b| {
+            // C07 (additive, all optional): the other termination criteria EvolutionConfigBuilder accepts
+            //   "max_time": secs, "min_cv": [interval_type, value, threshold, is_global], "target_proximity": [[fitness..], threshold]
+            let max_time = cfg["max_time"].as_u64().map(|t| t as usize);
+            let min_cv = cfg["min_cv"].as_array().map(|a| {
+                (
+                    a[0].as_str().unwrap_or("sample").to_string(),
+                    a[1].as_u64().unwrap_or(1) as usize,
+                    a[2].as_f64().unwrap_or(0.),
+                    a[3].as_bool().unwrap_or(true),
+                )
+            });
+            let target_proximity = cfg["target_proximity"].as_array().map(|a| {
+                (
+                    a[0].as_array().map(|f| f.iter().map(|x| x.as_f64().unwrap_or(0.)).collect::<Vec<_>>()).unwrap_or_default(),
+                    a[1].as_f64().unwrap_or(0.),
+                )
+            });
+            b.with_max_generations(max_generations)
+                .with_max_time(max_time)
+                .with_min_cv(min_cv, "min_cv".to_string())
+                .with_target_proximity(target_proximity)
+                .build()
+        });
     let config = match config {
         Ok(c) => c,
         Err(e) => return json!({"error": format!("config: {}", e)}),
